@@ -87,8 +87,21 @@ def model_input(case: dict, real: list[str]):
     ops = real_for_diff(case, real)
     if case.get("mode") == "threads":
         from vlib import c18_pool
-        return f"life-sa {len(case['progs']) + 1} {c18_pool.fix_flag()}", ops
+        # one more model caller per NetworkServerThread (its serve_forever runs in a thread of its own)
+        n_nst = sum(1 for p in case["progs"] for op in p if op == "tstart")
+        return f"life-sa {len(case['progs']) + 1 + n_nst} {c18_pool.fix_flag()}", ops
+    if has_activators(case):
+        # several tasks inside server_activate() (activation lock contended): Life.A has no activation lock, these
+        # histories are judged by the oracle only
+        return None
     return f"life-async {len(case['progs']) + 1}", ops
+
+
+ACTIVATORS = ("activate", "aenter")
+
+
+def has_activators(case: dict) -> bool:
+    return any(op in ACTIVATORS for p in case["progs"] for op in p)
 
 
 def after_batch() -> None:
@@ -105,11 +118,21 @@ def parse_trace(real: list[str]) -> dict[str, Any]:
     flags: list[tuple[int, int, int]] = []
     notes: list[tuple[int, str]] = []
     cancels: list[tuple[int, int]] = []
+    helpers: list[dict] = []          # NetworkServerThread.start() / .join() (threads mode)
+    open_helper: dict[int, dict] = {}
     for k, ln in enumerate(real):
         w = ln.split()
         if not w:
             continue
-        if w[0] == "call":
+        if w[0] == "@call" and len(w) >= 4:
+            h = {"caller": int(w[1]), "op": w[2], "v": int(w[3]), "start": k, "ret": None, "out": None, "alive": None}
+            helpers.append(h)
+            open_helper[int(w[1])] = h
+        elif w[0] == "@ret" and len(w) >= 5:
+            h = open_helper.pop(int(w[1]), None)
+            if h is not None:
+                h["ret"], h["out"], h["alive"] = k, w[3], w[4]
+        elif w[0] == "call":
             c = {"caller": int(w[1]), "op": w[2], "start": k, "ret": None, "out": None, "tmo": w[3] if len(w) > 3 else None}
             calls.append(c)
             open_call[int(w[1])] = c
@@ -124,7 +147,7 @@ def parse_trace(real: list[str]) -> dict[str, Any]:
             cancels.append((k, int(w[1])))
         elif ln.startswith(NOISE_PREFIX) or w[0] in ("quiet", "final", "conn", "disc", "stalled", "harness-exc", "infra"):
             notes.append((k, ln))
-    return {"calls": calls, "flags": flags, "notes": notes, "cancels": cancels}
+    return {"calls": calls, "flags": flags, "notes": notes, "cancels": cancels, "helpers": helpers}
 
 
 def _overlaps(y: dict, a: int, b: int | None) -> bool:
@@ -148,12 +171,35 @@ def oracle_threads(case: dict, real: list[str]) -> str | None:
     for k, ln in tr["notes"]:
         if ln.startswith("@hang"):
             stacks = " | ".join(x for _, x in tr["notes"] if x.startswith("@stack"))[:500]
+            if ln.endswith(" tstart"):
+                h = next((h for h in tr["helpers"] if h["op"] == "tstart" and h["out"] is None), None)
+                sv = next((c for c in calls if h and c["caller"] == h["v"] and c["op"] == "serve"), None)
+                if sv is not None and sv["out"] is not None:
+                    return (f"NetworkServerThread.start() never returned although its serve_forever had ended ({sv['out']}) and "
+                            f"the server thread was gone (deadlock; seen twice, second time alone): {ln} {stacks}")
             return f"a call never returned (watchdog expired twice, second time alone): {ln} {stacks}"
     for c in calls:
         if c["out"] is None:
             return f"call {c['caller']} {c['op']} never returned"
         if c["out"].startswith("exc:"):
             return f"call {c['caller']} {c['op']} raised {c['out'][4:]}"
+    # NetworkServerThread: start() = run serve_forever in a new thread and wait until the server is ready; it must come
+    # back in every case (server up, or its serve_forever over: refused, stopped during the set-up, …) and not before;
+    # join() = shutdown() + Thread.join(): when it returns (no timeout) the server thread is gone
+    for h in tr["helpers"]:
+        what = "NetworkServerThread." + {"tstart": "start()", "tjoin": "join()", "tjoinT": "join(timeout)"}.get(h["op"], h["op"])
+        if h["out"] is None:
+            return f"{what} (thread {h['caller']}) never returned"
+        if h["out"] != "ok":
+            return f"{what} (thread {h['caller']}) raised {h['out']}"
+        if h["op"] == "tstart":
+            ready = any(h["start"] < k < h["ret"] for k in ups.get(h["v"], []))
+            over = any(c["caller"] == h["v"] and c["op"] == "serve" and c["ret"] < h["ret"] for c in calls)
+            if not ready and not over:
+                return (f"{what} (thread {h['caller']}) returned although the server was not up and its serve_forever "
+                        "had not ended")
+        elif h["op"] == "tjoin" and h["alive"] != "alive=0":
+            return f"{what} (thread {h['caller']}) returned while the server thread was still alive"
     serves = [c for c in calls if c["op"] == "serve"]
     closes = [c for c in calls if c["op"] == "close"]
     shutdowns = [c for c in calls if c["op"] == "shutdown"]
@@ -290,7 +336,12 @@ def oracle(case: dict, real: list[str]) -> str | None:
             return f"second concurrent serve_forever (caller {x['caller']}) was not refused with ServerAlreadyRunning: {out}"
         if not active and out == "ServerAlreadyRunning":
             return f"serve_forever (caller {x['caller']}) refused with ServerAlreadyRunning while no serve_forever was running"
-        if closed_before and not active and out != "ServerClosedError":
+        # (a serve_forever still queued on the activation lock — its closed test not yet reached — that is stopped by a
+        # shutdown() / task.cancel() ends like any stopped serve_forever: the "shutdown vs. a serve not yet started" race.
+        # It must not have opened anything: the "nothing listening / serving after server_close() returned" clause.)
+        stopped_first = (out == "ok" and any(_overlaps(d, x["start"], x["ret"]) for d in calls if d["op"] == "shutdown")) or \
+            (out == "cancelled" and any(x["start"] < k < (x["ret"] or INF) and j == x["caller"] for k, j in tr["cancels"]))
+        if closed_before and not active and out != "ServerClosedError" and not stopped_first:
             return f"serve_forever after server_close() returned did not raise ServerClosedError: {out}"
         if out == "ServerClosedError" and not close_started:
             return "serve_forever raised ServerClosedError on a server nobody closed"
@@ -307,6 +358,23 @@ def oracle(case: dict, real: list[str]) -> str | None:
                     any(x["start"] < k < lim and j == x["caller"] for k, j in tr["cancels"])
                 if not disturbed:
                     return "serve_forever on a stopped, not closed server never reached serving"
+    # server_activate() / `async with server:` — "a closed server refuses with ServerClosedError", whichever call
+    # opens the listeners and however long it was queued on the activation lock
+    for a in calls:
+        if a["op"] not in ACTIVATORS:
+            continue
+        out = a["out"]
+        name = "server_activate()" if a["op"] == "activate" else "`async with server` (__aenter__)"
+        close_started = [c for c in closes if c["start"] < a["ret"]]
+        if any(c["out"] == "ok" and c["ret"] < a["ret"] for c in closes) and out != "ServerClosedError" and \
+                not (out == "cancelled" and any(a["start"] < k < a["ret"] and j == a["caller"] for k, j in tr["cancels"])):
+            return f"{name} that completed after server_close() had returned did not raise ServerClosedError: {out}"
+        if out == "ServerClosedError" and not close_started:
+            return f"{name} raised ServerClosedError on a server nobody closed"
+        if out == "cancelled" and not any(a["start"] < k < a["ret"] and j == a["caller"] for k, j in tr["cancels"]):
+            return f"{name} ended with CancelledError although nobody cancelled it"
+        if out not in ("ok", "ServerClosedError", "cancelled"):
+            return f"{name} ended with {out}"
     for d in shutdowns:
         if d["ret"] is None or d["out"] != "ok" or d.get("tmo"):
             continue
@@ -366,8 +434,9 @@ def nontrivial(case: dict, real: list[str]) -> str | None:
         return None
     tr = parse_trace(real)
     tags: list[str] = []
-    serves = [c for c in tr["calls"] if c["op"] == "serve" and c["caller"] < len(case["progs"])]
-    outs = {c["out"] for c in tr["calls"] if c["caller"] < len(case["progs"])}
+    epi = len(case["progs"])          # the epilogue caller; larger ids: serve_forever threads of NetworkServerThread
+    serves = [c for c in tr["calls"] if c["op"] == "serve" and c["caller"] != epi]
+    outs = {c["out"] for c in tr["calls"] if c["caller"] != epi}
     INF = len(real) + 1
 
     def in_startup(k: int) -> bool:
@@ -388,13 +457,34 @@ def nontrivial(case: dict, real: list[str]) -> str | None:
                 return True
         return False
 
+    acts = [c for c in tr["calls"] if c["op"] in ACTIVATORS]
     for c in tr["calls"]:
-        if c["caller"] >= len(case["progs"]):
+        if c["caller"] == epi:
             continue
         if c["op"] in ("shutdown", "close", "serve") and in_startup(c["start"]):
             tags.append(c["op"] + "-in-startup")
         if c["op"] in ("shutdown", "close", "serve") and in_teardown(c["start"]):
             tags.append(c["op"] + "-in-teardown")
+        # activation lock contended: a serve_forever / server_activate issued while another task is inside server_activate
+        if c["op"] == "serve" or c["op"] in ACTIVATORS:
+            if any(a is not c and a["start"] < c["start"] < (a["ret"] or INF) for a in acts) or \
+                    (c["op"] in ACTIVATORS and in_startup(c["start"])):
+                tags.append("act-queued")
+                if any(c["start"] < d["start"] < (c["ret"] or INF) for d in tr["calls"] if d["op"] == "close"):
+                    tags.append("act-queued+close")
+        if c["op"] in ("close", "shutdown") and any(a["start"] < c["start"] < (a["ret"] or INF) for a in acts):
+            tags.append(c["op"] + "-in-activate")
+    if acts:
+        tags.append("activate")
+    for h in tr["helpers"]:
+        tags.append("nst")
+        if h["op"] == "tstart" and h["ret"] is not None:
+            sv = next((c for c in tr["calls"] if c["caller"] == h["v"] and c["op"] == "serve"), None)
+            if sv is not None and sv["ret"] is not None and sv["ret"] < h["ret"]:
+                # start() released by the end of serve_forever, not by the server coming up
+                tags.append("nst-start-" + ("never-up" if sv["out"] == "ok" else "refused"))
+        elif h["op"] != "tstart":
+            tags.append("nst-join")
     if "ServerAlreadyRunning" in outs:
         tags.append("already-running")
     if "ServerClosedError" in outs:
@@ -409,7 +499,8 @@ def nontrivial(case: dict, real: list[str]) -> str | None:
         tags.append("client")
     if not tags:
         return None
-    tags = sorted(set(tags))
+    first = [t for t in ("act-queued+close", "act-queued", "nst-start-never-up", "nst-start-refused", "nst-join") if t in tags]
+    tags = first + [t for t in sorted(set(tags)) if t not in first]
     return case.get("mode", "async")[0] + case.get("kind", "tcp")[0] + "/" + "+".join(tags[:3])
 
 
@@ -451,6 +542,8 @@ def shrink(case: dict):
     for key in ("init_hops", "fac_hops"):
         if case.get(key, 0) > 0:
             yield {**case, key: case[key] - 1}
+    if "fac_plan" in case:
+        yield {k: v for k, v in case.items() if k != "fac_plan"}
 
 
 # ----------------------------------------------------------------------------------------------
@@ -488,6 +581,32 @@ def corpus() -> list[dict]:
     cs.append({**base, "progs": [["serve"], ["conn", "close", "probe", "echo", "disc"]], "sched": [[0, 0]]})
     cs.append({**base, "progs": [["serve"], ["conn", "close", "serve", "shutdown"]], "sched": [[0, 0]]})
     cs.append({**base, "progs": [["serve"], ["conn", "cancel:0", "probe"], ["serve"]], "sched": [[0, 0], [], [], [], [], [], [], [], [1, 0], [1, 0], [], [2, 0]]})
+    return cs + corpus_activation()
+
+
+def corpus_activation() -> list[dict]:
+    """overlapping activations (oracle only): task A inside server_activate() — directly, through `async with server:`
+    or as the first step of serve_forever() — parked in the listener factory (3 turns) and holding the activation lock;
+    task B's serve_forever() / server_activate() queued behind it; server_close() / shutdown() at every later turn of
+    A's activation and beyond (B is then queued, in the factory itself, or done)."""
+    cs: list[dict] = []
+    for kind in ("tcp", "udp"):
+        base = {"mode": "async", "kind": kind, "init_hops": 1, "fac_hops": 3}
+        for a, b in (("activate", "serve"), ("aenter", "serve"), ("serve", "activate"), ("activate", "activate"), ("aenter", "aenter")):
+            for c in ("close", "shutdown"):
+                for k1 in ((0, 1) if c == "close" else (0,)):
+                    for k2 in range(0, 8):
+                        cs.append({**base, "progs": [[a], [b, "probe"], [c, "probe"]],
+                                   "sched": [[0, 0]] + [[]] * k1 + [[1, 0]] + [[]] * k2 + [[2, 0]]})
+        # three activators, the close in the middle of the queue; a fast first factory call and a slow second one
+        for k in (0, 2, 4, 6):
+            cs.append({**base, "progs": [["activate"], ["serve"], ["aenter", "serve"], ["close", "serve"]],
+                       "sched": [[0, 0], [1, 0], [2, 0]] + [[]] * k + [[3, 0]]})
+            cs.append({**base, "fac_plan": [0, 4], "progs": [["activate", "cancel:1"], ["serve"], ["close", "activate"]],
+                       "sched": [[0, 0], [1, 0]] + [[]] * k + [[2, 0]]})
+        # the activation that holds the lock is cancelled: the queued one takes over; activate, serve, shutdown, serve
+        cs.append({**base, "progs": [["activate"], ["serve"], ["cancel:0", "probe", "echo"]], "sched": [[0, 0], [1, 0], [], [2, 0]]})
+        cs.append({**base, "progs": [["aenter", "serve", "serve"], ["echo", "shutdown", "echo", "close", "activate"]], "sched": [[0, 0]]})
     return cs
 
 
@@ -537,15 +656,48 @@ def _dense_async(rng) -> dict:
     return {"mode": "async", "kind": kind, "progs": progs, "sched": sched, "init_hops": ih, "fac_hops": fh}
 
 
+def _activation_async(rng) -> dict:
+    """2-3 tasks that enter server_activate() (activate / `async with` / serve_forever) within a few turns of each
+    other while the factory parks, plus close / shutdown / cancel landing at any turn of that window"""
+    kind = rng.choice(["tcp", "udp"])
+    n_act = rng.choice([2, 2, 3])
+    progs: list[list[str]] = []
+    for i in range(n_act):
+        first = rng.choice(["activate", "aenter", "serve"] if i == 0 else ["serve", "serve", "activate", "aenter"])
+        progs.append([first] + [rng.choice(["serve", "activate", "probe", "shutdown", "close"]) for _ in range(rng.randint(0, 2))])
+    for i in range(rng.choice([1, 1, 2])):
+        progs.append([rng.choice(["close", "close", "close", "shutdown", f"cancel:{rng.randrange(n_act)}"])]
+                     + [rng.choice(["probe", "serve", "activate", "close", "shutdown", "echo"]) for _ in range(rng.randint(0, 2))])
+    n = len(progs)
+    fh = rng.choice([1, 2, 3, 3, 4, 6])
+    sched: list[list[int]] = [[0, rng.choice([0, 0, 1])]]
+    order = list(range(1, n))
+    if rng.random() < 0.3:
+        rng.shuffle(order)
+    for i in order:
+        sched.extend([[]] * rng.choice([0, 0, 0, 1, 1, 2, 3, 5]))
+        sched.append([i, rng.choice([0, 0, 0, 1, 2])])
+    for _ in range(rng.randint(0, 5)):
+        sched.extend([[]] * rng.choice([0, 1, 2, 4]))
+        sched.append([rng.randrange(n), rng.choice([0, 0, 1])])
+    case = {"mode": "async", "kind": kind, "progs": progs, "sched": sched, "init_hops": rng.choice([0, 1, 2]), "fac_hops": fh}
+    if rng.random() < 0.3:
+        case["fac_plan"] = [rng.choice([0, 1, 3, 6]) for _ in range(rng.randint(1, 3))]
+    return case
+
+
 def generate(rng, tier: str, boost: int):
     from vlib import c18_pool
     n_async = (700 if tier == "quick" else 12000) * boost
+    n_act = (150 if tier == "quick" else 3000) * boost
     n_thr = (150 if tier == "quick" else 1500) * boost
     # the threaded histories run in worker processes while the deterministic ones are evaluated here
     thr_cases = c18_pool.corpus_threads() + [c18_pool.rand_case(rng) for _ in range(n_thr)]
     c18_pool.prefetch(thr_cases)
     for _ in range(n_async):
         yield _dense_async(rng) if rng.random() < 0.5 else _rand_async(rng)
+    for _ in range(n_act):
+        yield _activation_async(rng)
     if tier != "quick" and boost == 1:
         # exhaustive sweep: runner + two other callers, every pair of (op, turn) with turn in 0..11
         for kind in ("tcp", "udp"):
